@@ -29,6 +29,8 @@ CLAIMED = {
  'C14': ("Coq theorems (closed under the global context) about a string-level model of EquationParser.ParseString for ALL well-formed block descriptions: every item is classified into exactly the expected list with its right-hand side text, default time variable, malformed lines reported, and trailing comments are inert for all comment texts; model tied to equation_parser.py by a correspondence on random blocks with hostile comments and spacing; end-to-end description independence of Model.main() tested by the oracle.",
          "Trusts: Coq kernel+vm_compute; hand-written model coq/Block/Classify.v validated by correspondence each run; float() acceptance of the Err_Tolerance literal is a trusted table supplied by the harness.",
          "Coq proof over block descriptions (printer/parser round trip) + correspondence check", "DESIGN.md section 6 C14"),
+ 'C18': ("Soundness theorem of the verified rename-equivalence checker (a history satisfies the renamed/embedded system iff its pull-back along the renaming satisfies the original) evaluated in the kernel on the systems emitted for (i) a program and its consistently renamed twin, (ii) stand-alone economies and their part of a joint multi-currency model; plus the restriction lemma and evaluation-commutes-with-renaming for all expressions; all builds are also solved and compared by the oracle.",
+         GEN_NOTE, "Coq-verified rename-equivalence checker on pairs of emitted systems", "DESIGN.md section 6 C18"),
 }
 def chk(pid):
     text, note, tech, ref = CLAIMED[pid]
